@@ -156,13 +156,13 @@ Proof.
   fold n_Omen n_IP n_EP n_CP n_LN n_config n_alphabet.
   match goal with |- context [sc ?d ?f ?p ?s] => destruct (sc d f p s) as [fs2|] end; cbn [negb]; [|reflexivity].
   rewrite gen_save_alphabet_eq. cbn [tbind negb].
-  rewrite (tfor_append zz_line) by (intros x file _; unfold zz_line, pystr_int; text_norm; reflexivity).
+  rewrite (tfor_append zz_line) by (intros [x1 x2] file _; unfold zz_line, pystr_int; cbn [fst snd]; text_norm; reflexivity).
   rewrite ttry_continue.
-  rewrite (tfor_append zz_line) by (intros x file _; unfold zz_line, pystr_int; text_norm; reflexivity).
+  rewrite (tfor_append zz_line) by (intros [x1 x2] file _; unfold zz_line, pystr_int; cbn [fst snd]; text_norm; reflexivity).
   rewrite ttry_continue.
   rewrite (prob_loop ks lc nvalid).
   - destruct (prob_counter ks lc nvalid) as [p|e]; [|reflexivity]. cbn [tbind].
-    rewrite (tfor_append (zf_line repr)) by (intros x file _; unfold zf_line, pystr_int; text_norm; reflexivity).
+    rewrite (tfor_append (zf_line repr)) by (intros [x1 x2] file _; unfold zf_line, pystr_int; cbn [fst snd]; text_norm; reflexivity).
     rewrite ttry_continue. reflexivity.
   - intros level keyspace acc. cbv beta zeta. cbn [fst snd]. destruct (keyspace =? 0)%Z eqn:E; [reflexivity|].
     unfold zcnt_get. fold (zcount lc level). destruct (int_truediv (zcount lc level) nvalid) as [q|e]; [|reflexivity].
